@@ -20,15 +20,17 @@ Generous == 5000     \* scripts that are not stopped: just come back
 VARIABLE l
 
 O3(k1, v1, k2, v2, k3, v3) == Obj((k1 :> v1) @@ (k2 :> v2) @@ (k3 :> v3))
-ValueOf(e) == CASE e.path = "cond" -> Num(1)                      \* the condition kept its one binding
+ValueOf(e) == CASE e.path \in {"cond", "cond-or"} -> Num(1)                      \* the condition kept its one binding
                 [] e.class = "slow" -> IF e.path = "cond" THEN Num(1) ELSE Str("slept")
                 [] OTHER -> O3("x", Num(1), "y", Str("a"), "n", Num(2))   \* saw x = 1, y = "a"
 
-Stopped(e) == e.limit_ms > 0 /\ (e.class = "loop" \/ (e.class = "slow" /\ e.dur_ms > e.limit_ms))
+\* the limit that applies: the location's own if positive, none if negative, the system default otherwise
+Limit(e) == IF e.limit_ms > 0 THEN e.limit_ms ELSE IF e.limit_ms < 0 THEN 0 ELSE e.default_ms
+Stopped(e) == Limit(e) > 0 /\ (e.class = "loop" \/ (e.class = "slow" /\ e.dur_ms > Limit(e)))
 
 Ok(e) ==
   /\ e.returned
-  /\ e.elapsed_ms <= (IF Stopped(e) THEN e.limit_ms + Slack ELSE Generous)
+  /\ e.elapsed_ms <= (IF Stopped(e) THEN Limit(e) + Slack ELSE Generous)
   /\ CASE e.class \in {"throw", "syntax"} -> e.err
        [] Stopped(e) -> e.err
        [] OTHER -> ~e.err /\ Norm(e.val) = ValueOf(e)
